@@ -1,4 +1,4 @@
-\* thorough exhaustive config C: 2 snaps (both gate), boundary ticks {1,47,49,91d}, 7 steps
+\* thorough exhaustive config C: 2 snaps (both gate), boundary ticks {1,47,49,91d}, 6 steps
 CONSTANTS
   Snaps <- MCSnaps2
   Gaters <- MCGaters
@@ -6,7 +6,7 @@ CONSTANTS
   Ticks <- MCTicksQ
   SysDurs <- MCSysDurs
   ExplicitDurs <- MCNoDurs
-  MaxSteps = 7
+  MaxSteps = 6
 INIT Init
 NEXT Next
 CHECK_DEADLOCK FALSE
